@@ -700,6 +700,24 @@ where
             }
         }
     }
+    // 1b. the same through a borrowed source (`Signal for &mut S` forwards next and is_exhausted)
+    if let Leaf::Probe(len) = p.first_main_leaf() {
+        let (mut probe, _c) = Probe::new((0..len as usize).map(|k| F::coded(1, k)).collect());
+        let mut w = Watch::default();
+        let mut ext = Ext(Some(Dyn(Box::new(&mut probe))));
+        let mut sig = build_tree::<F>(p, &mut ext, &mut w, 0, &mut 0, h + 4);
+        let calls = if m.t == usize::MAX { h } else { m.t + 2 };
+        for k in 0..calls {
+            let e = sig.is_exhausted();
+            if e != (k >= m.t) {
+                return bad("exhaust.by_ref", format!("{name} over a borrowed source: is_exhausted() = {e} after {k} calls, expected {}", k >= m.t));
+            }
+            let f = sig.next();
+            if f != m.frames[k] {
+                return bad("exhaust.by_ref", format!("{name} over a borrowed source: frame {k} = {f:?}, expected {:?}", m.frames[k]));
+            }
+        }
+    }
     if m.t != usize::MAX {
         // 2. until_exhausted yields exactly t frames, then None for good
         let mut w = Watch::default();
